@@ -7,6 +7,7 @@ from fractions import Fraction as F
 import numpy as np
 
 from checks import shapeslib as SL
+from mc import exact as X
 from mc.core import family, lattice
 
 
@@ -264,6 +265,44 @@ def case_history(ctx, cfg):
             if e is not None or bool(r) != bool(exact[3]):
                 ctx.fail(f"polygon:{'2d' if dim == 2 else '3d'}:{cname}:contains-after-queries:{how}:single", "contains", {"polygon": name, "embedding": emb, "derived_by": how}, bool(exact[3]), e if e is not None else bool(r))
                 return
+        # the original polygon is unaffected by the derivations
+        r, e = ctx.call(P0.contains, QC)
+        ctx.trace(len(Q))
+        if e is not None or not np.array_equal(np.asarray(r), exact):
+            ctx.fail(f"polygon:{'2d' if dim == 2 else '3d'}:{cname}:original-after-derivation", "contains", {"polygon": name, "embedding": emb, "class": cname}, "membership in the original polygon", e if e is not None else "changed")
+            return
+    # query points that are RESULTS of other operations (their representatives are whatever the library produces)
+    Pq = G.Polygon(*[G.Point(np.array(list(v) + [1], dtype=float)) for v in V])
+    Tq = G.Triangle(*[G.Point(np.array(list(v) + [1], dtype=float)) for v in V[:3]]) if dim == 2 else None
+    tri_exact = np.array([SL.pip(list(poly[:3]), q) != "outside" for q in qs2]) if dim == 2 and X.idet4([list(poly[0]) + [1], list(poly[1]) + [1], list(poly[2]) + [1]]) != 0 else None
+    mirror_line = G.Line(1, -2, 3) if dim == 2 else None
+    plane = G.Plane(1, -2, 2, 3) if dim == 3 else None
+    tr = G.Transformation(np.array([[2.0, 1, 0], [0, 1, 1], [1, 1, 1]])) if dim == 2 else G.rotation(0.4, axis=G.Point(1, 2, 2))
+    for j in range(0, len(Q), 3):
+        q = G.Point(np.array(fpt(Q[j])))
+        made = []
+        if dim == 2:
+            made.append(("mirror(mirror(q))", lambda: mirror_line.mirror(mirror_line.mirror(q))))
+            made.append(("project onto a line through q", lambda: G.Line(q, G.Point(7, -3)).project(q)))
+            made.append(("meet(join(q,a), join(q,b))", lambda: G.meet(G.join(q, G.Point(11, 5)), G.join(q, G.Point(-7, 13)))))
+        else:
+            made.append(("mirror(mirror(q))", lambda: plane.mirror(plane.mirror(q))))
+            made.append(("meet(plane, plane, plane) through q", lambda: G.meet(G.join(q, G.Point(9, 1, 1), G.Point(1, 8, 2)), G.join(q, G.Point(-3, 5, 7), G.Point(2, 2, -9)), G.join(q, G.Point(4, -6, 1), G.Point(-5, -5, 3)))))
+        made.append(("t.inverse()*(t*q)", lambda: tr.inverse() * (tr * q)))
+        for how, mk in made:
+            qq, e = ctx.call(mk)
+            if e is not None:
+                continue  # constructions that are degenerate for this particular q
+            ctx.state((name, emb, "derived-query", j, how))
+            for cname, obj, ex in (("Polygon", Pq, exact), ("Triangle", Tq, tri_exact)):
+                if obj is None or ex is None:
+                    continue
+                r, e = ctx.call(obj.contains, qq)
+                ctx.trace()
+                if e is not None or bool(r) != bool(ex[j]):
+                    cplx = "complex-representative" if np.iscomplexobj(qq.array) and np.any(np.abs(np.imag(qq.array)) > 1e-12) else "real-representative"
+                    ctx.fail(f"{cname}:query-point-from:{how}:{cplx}", "contains", {"polygon": name, "embedding": emb, "q": [str(x) for x in Q[j]], "made_by": how, "representative": qq.array}, bool(ex[j]), e if e is not None else bool(r))
+                    return
     a, b = V[0], V[1]
     S = G.Segment(G.Point(np.array(list(a) + [1.0])), G.Point(np.array(list(b) + [1.0])))
     ex = np.array([SL.on_segment(q, a, b) for q in Q])
